@@ -5,7 +5,9 @@
 (*          mev (evaluation of the colour mirror; the mirror's board is    *)
 (*          logged and validated here against Chess!Mirror), evmg / eveg   *)
 (*          (the same position evaluated as pure middlegame / endgame),    *)
-(*          phase, panic flags                                             *)
+(*          phase, panic flags, evt (the position evaluated again after    *)
+(*          its pawn-owner twins - same squares occupied, one pawn of the  *)
+(*          other colour - have been evaluated in between)                 *)
 (*  "blend" mg, eg, ph, out ("panic" flag) : PhasedEval::new(mg, eg)       *)
 (*          .for_phase(ph)                                                 *)
 (***************************************************************************)
@@ -29,6 +31,8 @@ PosClauses(i, e) ==
         /\ ViolAt(~e.panic, "C16", i, "eval-panic", [fen |-> e.fen, msg |-> e.msg])
         /\ IF e.panic THEN TRUE
            ELSE /\ ViolAt(e.ev = e.mev, "C16", i, "colour-asymmetry", [fen |-> e.fen, ev |-> e.ev, mirror |-> e.mev])
+                /\ ViolAt(e.ev = e.evt, "C16", i, "evaluation-depends-on-what-was-evaluated-before",
+                          [fen |-> e.fen, ev |-> e.ev, after_pawn_owner_twins |-> e.evt])
                 /\ ViolAt(e.ev > -MateThreshold /\ e.ev < MateThreshold, "C16", i, "out-of-range", [fen |-> e.fen, ev |-> e.ev])
                 /\ ViolAt(BlendPV(e.evmg, e.eveg, e.ev), "C16", i, "not-between-mg-and-eg",
                           [fen |-> e.fen, ev |-> e.ev, mg |-> e.evmg, eg |-> e.eveg, phase |-> e.phase])
